@@ -584,6 +584,24 @@ func genC14(tier, out string, sum *Summary) {
 			}
 		}
 	}
+	// powers of two are exact in every representation that can hold them: the limits of the integer kinds as floats
+	for _, t := range []string{"9223372036854775808", "-9223372036854775808", "9007199254740992", "18446744073709551616", "4294967296", "-2147483648", "1", "0"} {
+		docJ := map[string]any{"a": json.Number(t)}
+		for _, e := range []string{"sum([a])", "avg([a])", "max([a])", "min([a, a])", "a == a", "sum([a]) == a", "sum([a]) > `0`", "type(sum([a]))", "abs(a) == a || abs(a) > a", "- a == - a", "sort([a])[0] == a", "sum([a, a]) == a + a", "[a][?@ == $.a] | length(@)", "to_number(a) == a", "ceil(a) == floor(a)", "max_by([{n: a}], &n).n == a"} {
+			ref := search(e, docJ)
+			for _, kn := range []string{"float64", "float32", "decimal", "uint64", "int64", "uint", "int", "json.Number/spelled", "decimal/scaled"} {
+				v, ok := convByName(kn)(json.Number(t))
+				if !ok {
+					continue
+				}
+				o := search(e, map[string]any{"a": v})
+				sum.count("exact-powers")
+				if !sameObs(ref, o, false) {
+					sum.direct("kind-dependence", e, docJ, fmt.Sprintf("with a json.Number %s; with a %s (%#v) it gives %s", describe(ref), kn, v, describe(o)))
+				}
+			}
+		}
+	}
 	// functions that only order or compare may see floats next to every other kind
 	for _, trio := range [][3]string{{"2.5", "1", "3"}, {"3", "2", "1"}, {"0.5", "-1", "0"}, {"2", "2.5", "2"}, {"9007199254740992", "1", "9007199254740993"}} {
 		docJ := map[string]any{"l": []any{json.Number(trio[0]), json.Number(trio[1]), json.Number(trio[2])}}
@@ -599,7 +617,7 @@ func genC14(tier, out string, sum *Summary) {
 					for j := range vals {
 						conv := k.conv
 						if j == fi {
-							conv = kindConvs[2].conv // float64
+							conv = convByName("float64")
 						}
 						v, ok := conv(json.Number(trio[j]))
 						if !ok {
@@ -789,4 +807,13 @@ func nearValues(x, y any) bool {
 		return true
 	}
 	return false
+}
+
+func convByName(name string) func(json.Number) (any, bool) {
+	for _, k := range kindConvs {
+		if k.name == name {
+			return k.conv
+		}
+	}
+	panic("no such kind " + name)
 }
